@@ -16,7 +16,12 @@ extern "C" void harness() {
   c.addNet({0, 1}, {1, 2}, {3, 4}, 1.0f);
   c.addNet({0, 2, 1}, {0, 3, 1}, {5, 2, 0}, 2.0f);
   ColoquinteParameters p(1);
+#ifdef INITCH
+  p.global.nbInitialSteps = __verif_choice(INITCH);   // with or without initial lower-bound steps (must stay below the maximum)
+  p.global.maxNbSteps = MAXSTEPS + p.global.nbInitialSteps;
+#else
   p.global.maxNbSteps = MAXSTEPS; p.global.nbInitialSteps = 0;
+#endif
 #ifdef PSETS
   int pset = __verif_choice(PSETS);
   if (pset >= 1) p.global.roughLegalization.binSize = 2.0;     // 5 x 2 bins instead of 2 x 1
